@@ -466,6 +466,7 @@ func checkC18(c *Ctx) {
 		"dot-unknown":              {"a.go": []byte("package p\n\nimport . \"nowhere\"\n\nvar X = Foo\n"), "b.go": []byte("package p\n\nimport . \"lib\"\n\nvar Y = Bar + Qux\n")},
 		"alias-collision":          {"a.go": []byte("package p\n\nimport l \"lib\"\n\nvar X = l.Foo\n"), "b.go": []byte("package p\n\nvar l = 1\n")},
 		"name-twice":               {"a.go": []byte("package p\n\nimport (\n\t\"lib\"\n\tlib \"fmt\"\n)\n\nvar X = lib.Foo\n")},
+		"two-blanks":               {"a.go": []byte("package p\n\nimport (\n\t_ \"lib\"\n\t_ \"lib2\"\n\t\"fmt\"\n)\n\nvar X = fmt.Sprint(missing)\n"), "b.go": []byte("package p\n\nimport _ \"lib\"\n\nimport _ \"fmt\"\n\nvar Y = X\n")},
 		"blank-and-plain":          {"a.go": []byte("package p\n\nimport (\n\t_ \"lib\"\n\t\"lib2\"\n)\n\nvar X = lib2.Baz\n\nvar lib2 = 0\n")},
 		"cycle":                    {"a.go": []byte("package p\n\ntype A struct{ b *B }\n\nvar X = Y\n"), "b.go": []byte("package p\n\ntype B struct{ a *A }\n\nvar Y = X\n\nconst (\n\tC0 = iota\n\tC1\n)\n")},
 	}
